@@ -1,6 +1,7 @@
 package unifier
 
 import (
+	"sync"
 	"time"
 
 	"github.com/thushan/olla/internal/zzverif/gosym"
@@ -106,16 +107,29 @@ func VerifUnifierBreakerConcurrent() {
 	}
 	gosym.Assert(cb.GetState() == CircuitOpen, "opens at the threshold")
 	gosym.AdvanceBy(int64(cfg.OpenDuration) + 1)
-	admitted, done := 0, 0
+	verdict := make([]int, G) // private slot per goroutine: 0 = no answer, 1 = refused, 2 = admitted
+	var wg sync.WaitGroup
+	wg.Add(G)
 	for g := 0; g < G; g++ {
+		g := g
 		go func() {
+			defer wg.Done()
+			verdict[g] = 1
 			if cb.Allow() {
-				admitted++
+				verdict[g] = 2
 			}
-			done++
 		}()
 	}
-	gosym.RunPending()
+	wg.Wait()
+	admitted, done := 0, 0
+	for _, v := range verdict {
+		if v > 0 {
+			done++
+		}
+		if v == 2 {
+			admitted++
+		}
+	}
 	gosym.Assert(done == G, "every caller gets an answer")
 	gosym.AssertKF(admitted <= cfg.HalfOpenRequests, "unification breaker admits at most the configured number of probes when half-open, also under concurrent callers", "KF-C08-2", true)
 	gosym.Reach("end")
